@@ -260,12 +260,12 @@ def run(ctx):
     from cuqiverif import tlc
     from cuqiverif.core import MachineryError
     for dev, inv in DEVIATIONS:
-        res = ctx.tlc("ModelGeom", cfg="ModelGeom.C12.%s.deviation.cfg" % dev, workers=16, expect_violation=True, timeout=600)
+        res = ctx.tlc("ModelGeom", cfg="ModelGeom.C12.%s.deviation.cfg" % dev, workers=1, expect_violation=True, timeout=600)
         if res.violated != inv:
             raise MachineryError("deviation %s did not violate %s on the model (violated=%r)" % (dev, inv, res.violated))
         ctx.observations.setdefault("deviation_counterexamples", {})[dev] = inv
         tlc.cleanup(res)
-    res = ctx.tlc("ModelGeom", cfg="ModelGeom.C12.%s.cfg" % ctx.tier, workers=16, timeout=1700)
+    res = ctx.tlc("ModelGeom", cfg="ModelGeom.C12.%s.cfg" % ctx.tier, workers=4, timeout=1700)
     ctx.model_must_hold(res, "ModelGeom.C12")
     cases = [c for c in res.cases if c.get("kind") == "c12"]
     tlc.cleanup(res)
